@@ -1,48 +1,17 @@
 //! C17 — symmetry-operation strings parse to the affine map they denote; anything else never panics.
 
-use std::panic::{catch_unwind, AssertUnwindSafe};
-
-use nalgebra::Point2;
-use packing::traits::FromSymmetry;
-use packing::Transform2;
 use proptest::prelude::*;
 use proptest::sample::select;
 use serde::{Deserialize, Serialize};
 
 use crate::engine::{idx, part, Ctx, PartDef, Rec};
+pub use crate::opgrammar::{check_grammar_string, no_panic, render, Comp, OpCase, Term};
 
 pub const TITLE: &str = "Symmetry-operation strings parse to the affine map they denote";
 pub const RULE: &str = "part grammar: an AST per component = a permutation of a non-empty subset of {+-x, +-y, +-c}, c = d or d/d' (single digits, d' != 0), rendered with optional leading '+', optional spaces after the comma and around binary +/-, optional enclosing parentheses; two components. Oracle: from_operations is Ok and maps 5 generated points to the AST's value (abs 1e-12). Spaces are never put inside d/d' or between a sign and its term, so a stricter but correct parser is not blamed. Non-trivial = some component has >= 2 terms and starts with a constant or a negated variable. part arbitrary: any::<String>(), strings over the alphabet \"xyXYz0-9+-*/(),. \\t\" and single-character mutations of grammar strings; oracle: the call returns (Ok or Err) without panicking; non-trivial = the string is not in the grammar and has >= 3 characters. Distinct by hash of the string.";
 
 pub fn assumptions() -> Vec<&'static str> {
     vec!["nothing is asserted about which non-grammar strings are accepted", "the thorough tier adds a libFuzzer campaign over the same two oracles (fuzz/ directory), reported in the evidence"]
-}
-
-#[derive(Clone, Debug, Serialize, Deserialize, PartialEq)]
-pub enum Term {
-    X(bool),
-    Y(bool),
-    /// negative?, numerator, denominator (0 = none)
-    C(bool, u8, u8),
-}
-
-#[derive(Clone, Debug, Serialize, Deserialize)]
-pub struct Comp {
-    pub terms: Vec<Term>,
-    /// leading '+' on the first term when it is positive
-    pub lead_plus: bool,
-    /// spaces before/after each binary operator
-    pub sp: Vec<(bool, bool)>,
-}
-
-#[derive(Clone, Debug, Serialize, Deserialize)]
-pub struct OpCase {
-    pub a: Comp,
-    pub b: Comp,
-    pub parens: bool,
-    pub comma_spaces: u8,
-    pub lead_space: bool,
-    pub points: Vec<(f64, f64)>,
 }
 
 fn term_strats() -> (BoxedStrategy<Term>, BoxedStrategy<Term>, BoxedStrategy<Term>) {
@@ -91,112 +60,11 @@ pub fn grammar_case() -> BoxedStrategy<OpCase> {
         .boxed()
 }
 
-fn render_term(t: &Term) -> (bool, String) {
-    match t {
-        Term::X(n) => (*n, "x".to_string()),
-        Term::Y(n) => (*n, "y".to_string()),
-        Term::C(n, d, q) => (*n, if *q == 0 { format!("{}", d) } else { format!("{}/{}", d, q) }),
-    }
-}
-
-fn render_comp(c: &Comp) -> String {
-    let mut s = String::new();
-    for (i, t) in c.terms.iter().enumerate() {
-        let (neg, body) = render_term(t);
-        if i == 0 {
-            if neg {
-                s.push('-');
-            } else if c.lead_plus {
-                s.push('+');
-            }
-        } else {
-            let (before, after) = c.sp[i.min(c.sp.len() - 1)];
-            let _ = after; // a space between a sign and its term is not generated
-            if before {
-                s.push(' ');
-            }
-            s.push(if neg { '-' } else { '+' });
-        }
-        s.push_str(&body);
-    }
-    s
-}
-
-pub fn render(c: &OpCase) -> String {
-    let mut s = String::new();
-    if c.parens {
-        s.push('(');
-    }
-    if c.lead_space && !c.parens {
-        // leading blank only without parentheses (trim of braces happens first in any reader)
-    }
-    s.push_str(&render_comp(&c.a));
-    s.push(',');
-    for _ in 0..c.comma_spaces {
-        s.push(' ');
-    }
-    s.push_str(&render_comp(&c.b));
-    if c.parens {
-        s.push(')');
-    }
-    s
-}
-
-fn eval_comp(c: &Comp, x: f64, y: f64) -> f64 {
-    let mut v = 0.;
-    for t in c.terms.iter() {
-        v += match t {
-            Term::X(n) => {
-                if *n {
-                    -x
-                } else {
-                    x
-                }
-            }
-            Term::Y(n) => {
-                if *n {
-                    -y
-                } else {
-                    y
-                }
-            }
-            Term::C(n, d, q) => {
-                let m = if *q == 0 { *d as f64 } else { *d as f64 / *q as f64 };
-                if *n {
-                    -m
-                } else {
-                    m
-                }
-            }
-        };
-    }
-    v
-}
-
 fn hash_str(s: &str) -> u64 {
     use std::hash::{Hash, Hasher};
     let mut h = std::collections::hash_map::DefaultHasher::new();
     s.hash(&mut h);
     h.finish()
-}
-
-pub fn check_grammar_string(c: &OpCase) -> Result<String, String> {
-    let s = render(c);
-    let res = catch_unwind(AssertUnwindSafe(|| Transform2::from_operations(&s)));
-    let t = match res {
-        Err(_) => return Err(format!("from_operations({:?}) panicked", s)),
-        Ok(Err(e)) => return Err(format!("from_operations({:?}) rejected a string of the grammar: {}", s, e)),
-        Ok(Ok(t)) => t,
-    };
-    for (x, y) in c.points.iter() {
-        let q = t * Point2::new(*x, *y);
-        let wx = eval_comp(&c.a, *x, *y);
-        let wy = eval_comp(&c.b, *x, *y);
-        if !((q.x - wx).abs() <= 1e-12 && (q.y - wy).abs() <= 1e-12) {
-            return Err(format!("from_operations({:?}) maps ({}, {}) to ({}, {}); the expression denotes ({}, {})", s, x, y, q.x, q.y, wx, wy));
-        }
-    }
-    Ok(s)
 }
 
 fn grammar_oracle(c: &OpCase, rec: &Rec, _: &Ctx) -> Result<(), String> {
@@ -256,13 +124,6 @@ fn arbitrary_strat(_: &Ctx) -> BoxedStrategy<StrCase> {
     .boxed()
 }
 
-pub fn no_panic(s: &str) -> Result<bool, String> {
-    match catch_unwind(AssertUnwindSafe(|| Transform2::from_operations(s).is_ok())) {
-        Ok(ok) => Ok(ok),
-        Err(_) => Err(format!("from_operations({:?}) panicked instead of returning Ok or Err", s)),
-    }
-}
-
 fn arbitrary_oracle(c: &StrCase, rec: &Rec, _: &Ctx) -> Result<(), String> {
     rec.eval(1);
     let ok = no_panic(&c.s)?;
@@ -277,6 +138,108 @@ fn arbitrary_oracle(c: &StrCase, rec: &Rec, _: &Ctx) -> Result<(), String> {
     Ok(())
 }
 
+/// thorough tier only: coverage-guided campaign with the same two oracles (target in /verif/fuzz)
+fn libfuzzer_part(ctx: &Ctx, ev: &mut crate::evidence::Evidence) {
+    use std::process::Command;
+    if ctx.tier != crate::engine::Tier::Thorough {
+        return;
+    }
+    let fuzz_dir = ctx.verif_dir.join("fuzz");
+    let target_dir = ctx.verif_dir.join("target").join("fuzz");
+    let work = ctx.verif_dir.join("target").join(format!("fuzz-work-{}", std::process::id()));
+    let corpus = work.join("corpus");
+    let artifacts = work.join("artifacts");
+    let _ = std::fs::create_dir_all(&corpus);
+    let _ = std::fs::create_dir_all(&artifacts);
+    let _ = std::fs::copy("/repo/Cargo.lock", fuzz_dir.join("Cargo.lock"));
+    // seed corpus: the strings of the unit tests and of the tables (string mode), and a few grammar byte strings
+    let seeds = ["x,y", "-x,-y", "-x,y", "x,-y", "-x,y+1/2", "-x+1/2, y", "x+1/2, -y", "-x+1/2, y+1/2", "x+1/2, -y+1/2", "(x, y)", "x, y, z", "x", "1/2,1/2", "-1/2+x, 2*y"];
+    for (i, s) in seeds.iter().enumerate() {
+        let mut b = vec![0u8];
+        b.extend_from_slice(s.as_bytes());
+        let _ = std::fs::write(corpus.join(format!("seed-s{}", i)), b);
+    }
+    for i in 0..16u8 {
+        let b: Vec<u8> = std::iter::once(1u8).chain((0..18u8).map(|k| k.wrapping_mul(37).wrapping_add(i.wrapping_mul(91)))).collect();
+        let _ = std::fs::write(corpus.join(format!("seed-g{}", i)), b);
+    }
+    let build = Command::new("cargo").args(&["+nightly", "fuzz", "build", "--fuzz-dir"]).arg(&fuzz_dir).arg("--target-dir").arg(&target_dir).env("CARGO_NET_OFFLINE", "true").output();
+    let built = matches!(&build, Ok(o) if o.status.success());
+    if !built {
+        eprintln!("HARNESS-NOTE: the libFuzzer target does not build here (cargo +nightly fuzz); the coverage-guided campaign is skipped");
+        ev.extra.insert("libfuzzer".to_string(), serde_json::json!("unavailable: cargo +nightly fuzz build failed"));
+        let _ = std::fs::remove_dir_all(&work);
+        return;
+    }
+    let runs = ctx.pick(0, 20_000_000);
+    let out = Command::new("cargo")
+        .args(&["+nightly", "fuzz", "run", "--fuzz-dir"])
+        .arg(&fuzz_dir)
+        .arg("--target-dir")
+        .arg(&target_dir)
+        .arg("ops")
+        .arg(&corpus)
+        .arg("--")
+        .arg(format!("-runs={}", runs))
+        .arg(format!("-seed={}", (ctx.seed % 2_000_000_000).max(1)))
+        .arg("-len_control=0")
+        .arg("-max_len=64")
+        .arg("-max_total_time=1500")
+        .arg(format!("-artifact_prefix={}/", artifacts.display()))
+        .env("CARGO_NET_OFFLINE", "true")
+        .output();
+    let text = match &out {
+        Ok(o) => String::from_utf8_lossy(&o.stderr).to_string(),
+        Err(e) => format!("cannot run: {}", e),
+    };
+    let done: u64 = text.lines().rev().find_map(|l| l.strip_prefix("Done ").and_then(|r| r.split_whitespace().next()).and_then(|n| n.parse().ok())).unwrap_or(0);
+    let cov = text.lines().rev().find(|l| l.contains(" cov: ")).unwrap_or("").to_string();
+    let mut m = crate::engine::Merged::default();
+    m.evals = done;
+    m.cases = done;
+    *m.classes.entry("libfuzzer-executions".to_string()).or_insert(0) += done;
+    ev.extra.insert("libfuzzer".to_string(), serde_json::json!({"executions": done, "last_status_line": cov.trim(), "seed_corpus": seeds.len() + 16}));
+    // artifacts -> replay files judged in-process
+    let mut crash_files: Vec<std::path::PathBuf> = std::fs::read_dir(&artifacts).map(|rd| rd.filter_map(|e| e.ok().map(|e| e.path())).collect()).unwrap_or_default();
+    crash_files.sort();
+    ev.absorb_part("libfuzzer", &m);
+    for f in crash_files.iter() {
+        let data = match std::fs::read(f) {
+            Ok(d) if !d.is_empty() => d,
+            _ => continue,
+        };
+        if data[0] & 1 == 0 {
+            let s = String::from_utf8_lossy(&data[1..]).to_string();
+            match no_panic(&s) {
+                Err(msg) => crate::engine::fail_case(ctx, ev, "arbitrary", serde_json::json!({"s": s}), format!("(found by libFuzzer) {}", msg)),
+                Ok(_) => {
+                    eprintln!("HARNESS-ERROR: libFuzzer artifact {} does not reproduce in-process", f.display());
+                    crate::mark_broken();
+                }
+            }
+        } else {
+            let case = crate::opgrammar::decode_case(&data[1..]);
+            match check_grammar_string(&case) {
+                Err(msg) => crate::engine::fail_case(ctx, ev, "grammar", serde_json::to_value(&case).unwrap(), format!("(found by libFuzzer) {}", msg)),
+                Ok(_) => {
+                    eprintln!("HARNESS-ERROR: libFuzzer artifact {} does not reproduce in-process", f.display());
+                    crate::mark_broken();
+                }
+            }
+        }
+    }
+    if let Ok(o) = &out {
+        if !o.status.success() && crash_files.is_empty() {
+            eprintln!("HARNESS-NOTE: libFuzzer exited with {:?} without an artifact: {}", o.status.code(), text.lines().rev().take(3).collect::<Vec<_>>().join(" | "));
+        }
+    }
+    let _ = std::fs::remove_dir_all(&work);
+}
+
 pub fn parts() -> Vec<PartDef> {
-    vec![part("grammar", 300_000, 10_000_000, |_| grammar_case(), grammar_oracle), part("arbitrary", 300_000, 10_000_000, arbitrary_strat, arbitrary_oracle)]
+    vec![
+        part("grammar", 300_000, 10_000_000, |_| grammar_case(), grammar_oracle),
+        part("arbitrary", 300_000, 10_000_000, arbitrary_strat, arbitrary_oracle),
+        crate::engine::custom_part("libfuzzer", libfuzzer_part, |_, _, _| Err("libFuzzer findings are replayed through the grammar/arbitrary parts".to_string())),
+    ]
 }
